@@ -35,6 +35,7 @@ PCONCAT = z3.Function('pstr_concat', PSTR, PSTR, PSTR)
 PCONTAINS = z3.Function('pstr_contains', PSTR, PSTR, z3.BoolSort())
 PLEN = z3.Function('pstr_len', PSTR, z3.IntSort())
 PLE = z3.Function('pstr_le', PSTR, PSTR, z3.BoolSort())
+PSTR_OF_INT = z3.Function('pstr_of_int', z3.IntSort(), PSTR)     # python's str(int)
 LITERALS: dict = {}
 
 
